@@ -5,6 +5,21 @@ from . import core, simple
 from .core import ToolError
 
 
+def _flip_connected(ev):
+    for i, x in enumerate(ev):
+        if x.get('e') == 'hook' and x.get('ev') == 'rc_connected':
+            ev[i] = dict(x, n=1 - x['n'])
+            return ev
+    return ev
+
+
+def _drop_idle_make(ev):
+    for i, x in enumerate(ev):
+        if x.get('e') == 'hook' and x.get('ev') == 'rc_idle_make':
+            return ev[:i] + ev[i + 1:]
+    return ev
+
+
 def check(prop, tier, seed):
     t0 = time.time()
     core.build_harness()
@@ -61,6 +76,16 @@ def check(prop, tier, seed):
             nd += 1
             if nd <= 3:
                 verdict.drift.append(f'script {st["script"]} lazy={st["lazy"]}: model predicted connect={st["expect_connect"]} {st["expect"]}, code gave connect={conn} {got}')
+    # mechanism trace validation: the hook events of every arm of Reconnect::poll_ready / call are steps of Reconnect.tla
+    runs = core.split_runs(ev)
+    mt = {}
+    for lazy in (True, False):
+        sel = [r for r in runs if bool(r[0]['stim'].get('lazy')) == lazy and not any(e.get('e') == 'end' and e.get('outcome') != 'ok' for e in r)]
+        name = 'TRUE' if lazy else 'FALSE'
+        mt['lazy' if lazy else 'eager'] = core.mech_validate(verdict, sel, 'Trace_ReconnectMech', f'Trace_ReconnectMech_{name}.cfg', tag, f'scripts_{name}', 'Reconnect.tla',
+                                                             (('flip_connected', _flip_connected), ('drop_idle_make', _drop_idle_make)))
+    cov['mechanism_trace'] = mt
+    nd += sum(m['runs_rejected'] for m in mt.values())
     cov['mechanism_drift'] = f'{nd} runs differ from the Mechanism model prediction'
     cov['samples'].append({'family': 'scripts', 'stimulus': simple.sample_of(stims)})
     cov['exhaustive'] = True
@@ -69,7 +94,7 @@ def check(prop, tier, seed):
                          ['calls are issued at quiescent points (1 ms of virtual time after every drop and call)',
                           'a call that ran into a dropped connection before the client noticed may fail once with any status',
                           'how often the connector is invoked per call is not constrained by the Contract'],
-                         'tlc MC_Reconnect_*.cfg, Gen_Reconnect_*.cfg; vh reconnect; tlc Trace_Reconnect.cfg')
+                         'tlc MC_Reconnect_*.cfg, Gen_Reconnect_*.cfg; vh reconnect; tlc Trace_Reconnect.cfg; tlc Trace_ReconnectMech_*.cfg')
 
 
 def replay(prop, path):
